@@ -17,6 +17,7 @@ package main
 
 import (
 	"fmt"
+	"os"
 	"strings"
 )
 
@@ -443,6 +444,10 @@ func (g *c14Gen) strLeaf() string {
 // concatenation. Equality, switch tags, map keys and string arguments use only these (known finding F152:
 // a concatenation yields a Buffer, which compares by identity and is not a valid map key).
 func (g *c14Gen) strPure() string {
+	if c14Allow("concat") {
+		s, _ := g.genStr(2)
+		return "(" + s + ")"
+	}
 	var cands []*c14Var
 	for _, v := range g.vars("string", false) {
 		if !v.buf {
@@ -826,6 +831,9 @@ func (g *c14Gen) switchStmt() {
 		// the default clause comes last: anywhere else the unchanged compiler swaps it with the last clause, which
 		// changes the order of the tests and the targets of fallthrough (known finding F142)
 		defAt = ncase
+		if c14Allow("earlydefault") {
+			defAt = g.r.intn(ncase + 1)
+		}
 	}
 	used := map[string]bool{}
 	for c := 0; c <= ncase; c++ {
@@ -872,7 +880,7 @@ func (g *c14Gen) switchStmt() {
 		}
 		g.pop()
 		g.inSw--
-		if defAt == ncase && c < ncase && g.r.chance(15) { // the default clause below is certainly emitted
+		if (defAt == ncase && c < ncase || c14Allow("earlydefault") && defAt > c) && g.r.chance(15) { // the default clause below is certainly emitted
 			g.tag("fallthrough")
 			g.emitf("fallthrough")
 		}
@@ -1042,7 +1050,7 @@ func (g *c14Gen) mapStmt() {
 }
 
 func (g *c14Gen) structStmt() {
-	switch g.r.intn(7) {
+	switch g.r.intn(8) {
 	case 0:
 		v := g.declare("S", false, 0)
 		g.emitf("%s := %s", v.name, g.structLit(2))
@@ -1104,6 +1112,22 @@ func (g *c14Gen) structStmt() {
 		g.emitf("\tcp = append(cp, %s)", s.name)
 		g.emitf("\tcp[0].a = %s.a + 1", s.name)
 		g.emitf("\t%s = (cp[0].a - %s.a + %s) %% %d", x.name, s.name, x.name, c14M)
+		g.emitf("}")
+	case 6:
+		s := g.pickVar("S", false)
+		x := g.pickVar("int", true)
+		if !c14Allow("structcopy") || s == nil || x == nil {
+			return
+		}
+		g.tag("struct-copy")
+		g.emitf("{")
+		g.emitf("\tcp := %s", s.name)
+		g.emitf("\tcp.a = %s.a + 1", s.name)
+		g.emitf("\tcp.in.p = %s.in.p + 2", s.name)
+		g.emitf("\tvar cq S")
+		g.emitf("\tcq = cp")
+		g.emitf("\tcq.a += 5")
+		g.emitf("\t%s = (cp.a - %s.a + cp.in.p - %s.in.p + cq.a - cp.a + %s) %% %d", x.name, s.name, s.name, x.name, c14M)
 		g.emitf("}")
 	default: // slice of pointers
 		p := g.pickVar("*S", false)
@@ -1283,6 +1307,18 @@ func (g *c14Gen) lambdaStmt() {
 	// function values take one argument here: with two or more the unchanged compiler passes them in
 	// reverse order (known finding, reproduced from corpus/C14)
 	g.tag("lambda")
+	if c14Allow("lambda2") {
+		g.emitf("{")
+		g.emitf("\tfn2 := func(p int, q bool, r int) int {")
+		g.emitf("\t\tif q {")
+		g.emitf("\t\t\treturn p*2 + r")
+		g.emitf("\t\t}")
+		g.emitf("\t\treturn p - r")
+		g.emitf("\t}")
+		g.emitf("\t%s = (fn2(%s, %s, 5) + fn2(3, false, %s)) %% %d", x.name, g.genIntFit(1), g.genBool(1), g.genIntFit(1), c14M)
+		g.emitf("}")
+		return
+	}
 	g.emitf("{")
 	g.emitf("\tfn := func(p int) int {")
 	g.emitf("\t\tif p%%2 == 0 {")
@@ -1397,6 +1433,7 @@ func c14GenUnit(r *rng, pkg string, nEntry int, hist map[string]int) c14Unit {
 	// package-level variables: every initialiser refers to earlier declarations only
 	g.push()
 	nglob := 2 + r.intn(5)
+	g.noFault++
 	g.emitf("var log []int")
 	g.emitf("")
 	g.noGlob = false
@@ -1417,6 +1454,7 @@ func c14GenUnit(r *rng, pkg string, nEntry int, hist map[string]int) c14Unit {
 		}
 		g.globals = append(g.globals, v)
 	}
+	g.noFault--
 	g.emitf("")
 	// helpers used by the templates
 	g.emitf("func note(k int) {")
@@ -1452,9 +1490,13 @@ func c14GenUnit(r *rng, pkg string, nEntry int, hist map[string]int) c14Unit {
 		g.budget = 4
 		// no return and no function literal inside init(): the unchanged compiler concatenates the init
 		// functions into _initialize, where a return leaves all of it and a literal's code is fallen into
+		// nothing that can fail either: under the Go toolchain all generated packages are linked into one
+		// binary, a panic during initialisation would take every call of the batch with it
 		g.noRet, g.inInit = true, true
+		g.noFault++
 		g.emitf("note(%d)", 900+i)
 		g.stmts(3)
+		g.noFault--
 		g.noRet, g.inInit = false, false
 		g.pop()
 		g.indent--
@@ -1663,6 +1705,17 @@ func SumTo(n int) int {
 	return s
 }
 `, name, k)
+}
+
+// c14Allow: development switch (environment variable C14_ALLOW, comma separated) that re-enables a construct
+// the generator leaves out because of a known finding; used to validate the repair of that finding.
+func c14Allow(feature string) bool {
+	for _, f := range strings.Split(os.Getenv("C14_ALLOW"), ",") {
+		if f == feature {
+			return true
+		}
+	}
+	return false
 }
 
 // ---------- argument tuples ----------
